@@ -519,7 +519,14 @@ func (x *panx) runCase(sp *panSpace, idx int64, a string, b core.Files, tag stri
 		res.Count("rejected_by_tool", 1)
 		res.Outcome("rejected:" + short(firstLine(out.Stderr), 50))
 		if tag != "" {
-			x.violation(sp, idx, a, b, nil, 0, "resume-accepted", tag+"rejected", out.Stderr)
+			// a state with nested address-groups belongs to the mechanism of
+			// F-C08-panos-nested-groups (the tool's own script can make a
+			// group a member of itself, which the next run refuses to read)
+			nested := ""
+			if m, err := panmodel.Load(a); err == nil && m.HasNestedGroups() {
+				nested = ":nested-groups"
+			}
+			x.violation(sp, idx, a, b, nil, 0, "resume-accepted", tag+"rejected"+nested, out.Stderr)
 		}
 		return nil
 	case 2:
